@@ -33,6 +33,9 @@ static Case gen_C10(const GenCtx &ctx) {
     h += std::string(1, k) + "." + std::to_string(a) + "." + std::to_string(b) + "." + std::to_string(d);
   }
   c.sets("H.hist", h.empty() ? "-" : h);
+  // the same operation with the same shape and parameters on other data, immediately before the judged call: state that a
+  // routine keeps between calls keyed by shape (a cached table, a static scratch row) would carry over
+  if (g::coin(1, 2)) c.setu("H.same", g::seed() | 1);
   c.set("H.fill", g::pick<int>({0xA5, 0xFF, 0x01, 0x00, g::rng(0, 255), -1}));
   return c;
 }
@@ -145,6 +148,17 @@ static Verdict exec_C10(const Case &c) {
   int fill = (int)c.i("H.fill", -1);
   vf_wrap_set_fill(fill, fill >= 0 ? (fill ^ 0x3C) & 0xFF : -1);
   run_history(c.s("H.hist", "-"));
+  if (c.has("H.same")) {
+    Case other = c;
+    u64 x = c.u("H.same");
+    for (auto &kv : other.kv)
+      if (kv.first.size() >= 4 && kv.first.compare(kv.first.size() - 4, 4, "seed") == 0 && kv.first.rfind("H.", 0) != 0) {
+        char buf[32];
+        snprintf(buf, sizeof buf, "0x%llx", (unsigned long long)(strtoull(kv.second.c_str(), nullptr, 0) ^ x));
+        kv.second = buf;
+      }
+    (void)exec_op(other);  // verdict not judged here: only its side effects on library state matter
+  }
   long a1 = vf_wrap_allocs();
   Verdict v2 = exec_op(c);
   long n2 = vf_wrap_allocs() - a1;
@@ -175,6 +189,7 @@ static Verdict exec_C10(const Case &c) {
   if (recycled) r.label("recycled-block-served");
   if (fill >= 0) r.label("heap-fill");
   if (c.s("H.hist", "-") != "-") r.label("history");
+  if (c.has("H.same")) r.label("same-operation-on-other-data-first");
   r.label(wrap ? "alloc-wrapper" : "no-alloc-wrapper");
   r.nontrivial = v2.nontrivial && (recycled || fill > 0);
   return r;
@@ -203,7 +218,8 @@ static std::vector<Case> enum_C10(const GenCtx &ctx) {
 static RegisterProp p_C10({"C10",
                            "random: (final operation from the catalogue with owned operands and junk destinations) x (history of 0..40 "
                            "throw-away calls - dirty blocks of exactly the shapes of the final operation left in the block cache, "
-                           "products, echelon forms, PLUQ, transposes, eviction bursts, fini+init) x heap pattern applied by the "
+                           "products, echelon forms, PLUQ, transposes, eviction bursts, fini+init; in half of the cases followed by the same "
+                           "operation with the same shape and parameters on other data) x heap pattern applied by the "
                            "allocation wrapper to every fresh block (and a different one to freed blocks); oracle = the operation's model "
                            "oracle + identical output digest in a fresh state and after the history + zero padding of every owned "
                            "operand and result; non-trivial iff the operation's own rule holds and (a recycled block was served to it - "
